@@ -1,13 +1,14 @@
-"""developer aid: summarise out/violations_<prop>.json"""
+"""developer aid: summarise out/violations_<prop>.json  (triage.py C05 [maxclasses] [key,key,...])"""
 import collections, json, sys
 prop = sys.argv[1]
-keys = sys.argv[2].split(",") if len(sys.argv) > 2 else ["func", "engine", "dtype", "method"]
+maxc = int(sys.argv[2]) if len(sys.argv) > 2 else 12
+keys = sys.argv[3].split(",") if len(sys.argv) > 3 else ["func", "engine", "method", "min_count"]
 vs = json.load(open(f"/verif/out/violations_{prop}.json"))
 c = collections.Counter(); ex = {}
 for v in vs:
     k = (v["clause"],) + tuple(str(v["case"].get(x)) for x in keys)
     c[k] += 1; ex.setdefault(k, v)
-for k, n in sorted(c.items(), key=lambda kv: -kv[1]):
-    v = ex[k]
-    case = {a: b for a, b in v["case"].items() if a not in ("msg",)}
-    print(n, k, "\n    ", json.dumps(case)[:700], "\n     detail:", json.dumps(v["detail"])[:400])
+print(len(vs), "violations,", len(c), "classes by", keys)
+for k, n in sorted(c.items(), key=lambda kv: -kv[1])[:maxc]:
+    v = ex[k]; cs = v["case"]
+    print(n, k, "|", {a: cs.get(a) for a in ("vals", "codes", "req", "sort", "fill", "chunks", "label_kind", "reindex", "by_dask", "dtype", "q") if cs.get(a) is not None}, "|", json.dumps(v["detail"])[:220])
